@@ -42,6 +42,11 @@ def runMgr (fs : List String) : String × String :=
       let (m', o) := reload T interval m (b == "1") (parseSched sc)
       (m', out ++ [s!"r:{resStr o.res}:{m'.ver}:{versionText o.file}:{versionText o.file}:{o.polls}"],
         min mg o.margin, mono && decide (m.ver < o.tag))
+    | ["U", ws] | ["S", ws] =>
+      let workers : List (Option Nat) := (splitOn ws "+").map fun w =>
+        if w == "cur" then some m.ver else if w == "old" then none else some (nat w)
+      let o := updateConn m workers
+      (m, out ++ [s!"{(op.take 1).toString}:{resStr o.res}:{o.unconfirmed}:{if o.apiSeen then 1 else 0}"], mg, mono)
     | [k, w] =>
       let worker : Option Nat := if w == "err" then none else if w == "cur" then some m.ver else some (nat w)
       let o := update m worker
